@@ -37,6 +37,11 @@ func (m *Machine) interval(t *Term, depth int) iv {
 				}
 			}
 		}
+		if t.w > 8 && m.wdom != nil && m.local == nil {
+			if d, ok := m.wdom[int32(t.k)]; ok && len(d) > 0 {
+				return iv{d[0].lo, d[len(d)-1].hi}
+			}
+		}
 		return full
 	case OpZExt:
 		return m.interval(t.a, depth+1)
